@@ -122,3 +122,138 @@ theorem interpOps_body (fr : Option Nat) (fo A n : Nat) (mem : Mem) (saves : Lis
   · simpa using hspec
 
 end FH
+
+namespace FH
+
+/-- **Unwinding from any point of the prolog** `push…; sub rsp, n; lea fr, [rsp+fo]; mov […], r…`:
+the operations that apply at a prolog offset are those of the instructions already executed
+(`gatherOps` keeps the codes whose offset is not above the pc's). `allocDone` / `setfpDone` say
+how far the thread got, `pops` are the pushes executed so far, `saves` the movs executed so far
+(none before the allocation; with a frame register none before it is set). -/
+theorem interpOps_prolog_prefix (fr : Option Nat) (fo A n : Nat) (mem : Mem)
+    (saves : List (Nat × Nat)) (pops : List Nat) (allocDone setfpDone : Bool) (r : Nat → Nat)
+    (ra : Nat) (r' : Nat → Nat)
+    (hbase : if setfpDone then ∃ f, fr = some f ∧ r (peReg f) = A + fo
+      else r RSP = (if allocDone then A else A + n))
+    (horder : (setfpDone = true → allocDone = true) ∧
+      (saves ≠ [] → allocDone = true ∧ (setfpDone = true ∨ fr = none)))
+    (hs : ∀ p ∈ saves, peReg p.1 ≠ RSP ∧ (∀ f, fr = some f → peReg p.1 ≠ peReg f) ∧
+      mem (A + p.2) ≠ none ∧ A + p.2 < U64)
+    (hn : RSP ∉ pops.map peReg) (hlt : A + n + 8 * pops.length + 8 < U64)
+    (hspec : popSpecLoop mem (pops.map peReg) (A + n)
+      (setReg (restoreSaves mem A saves r) RSP (A + n)) = some (ra, r')) :
+    interpOps fr fo mem
+      (saves.map (fun p => .readNonVolatile p.1 p.2) ++
+        ((if setfpDone then [.restoreSPFromFP] else []) ++ ((if allocDone then [.unStackAlloc n] else []) ++
+          pops.map .popNonVolatile))) r = .ok ra r' := by
+  -- the saves (if any) see the frame base
+  have hb : saves ≠ [] → BaseIs fr fo A r := by
+    intro hne
+    obtain ⟨ha, hf⟩ := horder.2 hne
+    rcases hf with hf | hf
+    · simp only [hf, if_true] at hbase
+      obtain ⟨f, e1, e2⟩ := hbase
+      subst e1; exact e2
+    · subst hf
+      cases setfpDone with
+      | true => simp only [if_true] at hbase; obtain ⟨f, e1, _⟩ := hbase; cases e1
+      | false => simp only [Bool.false_eq_true, if_false, ha, if_true] at hbase; exact hbase
+  have e1 : interpOps fr fo mem
+      (saves.map (fun p => .readNonVolatile p.1 p.2) ++
+        ((if setfpDone then [.restoreSPFromFP] else []) ++ ((if allocDone then [.unStackAlloc n] else []) ++
+          pops.map .popNonVolatile))) r =
+      interpOps fr fo mem ((if setfpDone then [.restoreSPFromFP] else []) ++
+        ((if allocDone then [.unStackAlloc n] else []) ++ pops.map .popNonVolatile))
+        (restoreSaves mem A saves r) ∧
+      (restoreSaves mem A saves r) RSP = r RSP ∧
+      (∀ f, fr = some f → restoreSaves mem A saves r (peReg f) = r (peReg f)) := by
+    cases saves with
+    | nil => exact ⟨rfl, rfl, fun _ _ => rfl⟩
+    | cons p more =>
+      have hbb := hb (by simp)
+      obtain ⟨a, b, c⟩ := interpOps_saves fr fo A mem
+        ((if setfpDone then [.restoreSPFromFP] else []) ++
+          ((if allocDone then [.unStackAlloc n] else []) ++ pops.map .popNonVolatile)) (p :: more) r hbb hs
+      refine ⟨a, c, ?_⟩
+      intro f hf
+      subst hf
+      simp only [BaseIs] at hbb b
+      rw [b, hbb]
+  obtain ⟨e1a, e1b, e1c⟩ := e1
+  rw [e1a]
+  generalize restoreSaves mem A saves r = r1 at e1b e1c hspec ⊢
+  -- UWOP_SET_FPREG
+  have e2 : interpOps fr fo mem ((if setfpDone then [.restoreSPFromFP] else []) ++
+        ((if allocDone then [.unStackAlloc n] else []) ++ pops.map .popNonVolatile)) r1 =
+      interpOps fr fo mem ((if allocDone then [.unStackAlloc n] else []) ++ pops.map .popNonVolatile)
+        (setReg r1 RSP (if allocDone then A else A + n)) := by
+    cases setfpDone with
+    | false =>
+      simp only [Bool.false_eq_true, if_false] at hbase
+      have : setReg r1 RSP (if allocDone then A else A + n) = r1 := by
+        funext j; unfold setReg; by_cases hj : j = RSP
+        · subst hj; simp [e1b, hbase]
+        · simp [hj]
+      simp [this]
+    | true =>
+      simp only [if_true] at hbase
+      obtain ⟨f, ef, ebase⟩ := hbase
+      subst ef
+      have hal := horder.1 rfl
+      have hv : r1 (peReg f) = A + fo := by rw [e1c f rfl]; exact ebase
+      have c1 : fo ≤ r1 (peReg f) := by omega
+      have c2 : r1 (peReg f) - fo = A := by omega
+      simp only [if_true, List.cons_append, List.nil_append, interpOps, resolveOp, c1, c2, hal]
+  rw [e2]
+  -- the allocation
+  have e3 : interpOps fr fo mem ((if allocDone then [.unStackAlloc n] else []) ++ pops.map .popNonVolatile)
+        (setReg r1 RSP (if allocDone then A else A + n)) =
+      interpOps fr fo mem (pops.map .popNonVolatile) (setReg r1 RSP (A + n)) := by
+    cases allocDone with
+    | false => simp
+    | true =>
+      have hA : setReg r1 RSP A RSP + n < U64 := by simp; omega
+      simp only [if_true, List.cons_append, List.nil_append, interpOps, resolveOp, hA]
+      congr 1
+      funext j; unfold setReg; by_cases hj : j = RSP <;> simp [hj]
+  rw [e3, interpOps_pops_frameless]
+  apply interpOps_pops_of_spec mem pops (setReg r1 RSP (A + n)) ra r' hn
+  · simp; omega
+  · simpa using hspec
+
+end FH
+
+namespace FH
+
+/-- On a code array sorted by descending prolog offset (as UNWIND_INFO stores it) skipping the
+leading codes whose offset lies above the pc's keeps exactly the codes of the instructions that
+have been executed. -/
+theorem dropWhile_gt_eq_filter_le (o : Nat) : ∀ (l : List (Nat × PeOp)),
+    l.Pairwise (fun a b => a.1 ≥ b.1) →
+    l.dropWhile (fun p => p.1 > o) = l.filter (fun p => p.1 ≤ o)
+  | [], _ => rfl
+  | p :: rest, h => by
+    have hr := (List.pairwise_cons.mp h).2
+    have hp := (List.pairwise_cons.mp h).1
+    by_cases hgt : p.1 > o
+    · have : ¬ p.1 ≤ o := by omega
+      simp only [List.dropWhile_cons, hgt, decide_true, if_true, List.filter_cons, this, decide_false,
+        Bool.false_eq_true, if_false]
+      exact dropWhile_gt_eq_filter_le o rest hr
+    · have hle : p.1 ≤ o := by omega
+      simp only [List.dropWhile_cons, hgt, decide_false, Bool.false_eq_true, if_false, List.filter_cons,
+        hle, decide_true, if_true]
+      congr 1
+      symm
+      apply List.filter_eq_self.mpr
+      intro q hq
+      have := hp q hq
+      simp only [decide_eq_true_eq]
+      omega
+
+theorem gatherOps_single (codes : List (Nat × PeOp)) (o : Nat)
+    (hsorted : codes.Pairwise (fun a b => a.1 ≥ b.1)) :
+    gatherOps [⟨codes⟩] o = (codes.filter (fun p => p.1 ≤ o)).map (·.2) := by
+  simp [gatherOps, dropWhile_gt_eq_filter_le o codes hsorted]
+
+end FH
